@@ -55,6 +55,12 @@ CHECKS = {
                 text="Bounded model checking on Temperature, a synthetic 3-unit no-reference type and a synthetic single-unit type, f64 (all bit patterns) and decimal (bounded coefficients): == iff same unit and amount, "
                      "partial_cmp None across units, + - / of different units fail exactly at the documented panic! and never return, same units keep the unit; E2 re-decides the panic condition from the MIR and shows same-unit results are exactly the amount type's own operations.",
                 note="Trusted: Kani's modelling of panic! as a failing check at the macro site; decimal same-unit division is decided by E2 only (CBMC does not finish the 256-bit division).", ref="7 C10"),
+    "C11": dict(engine="kani+mirsmt", technique="seeded corpus of synthetic definitions expanded by the real macro; per definition Kani/CBMC harness families and MIR symbolic execution + z3 obligations",
+                text="Bounded in the program dimension and stated as such: K seeded well-formed definitions (quick 6, thorough 24; unit counts 1-9, int/float literal forms, ties, optional prefix/doc, "
+                     "with/without reference unit, single-unit, each also with permuted attribute order, plus a derived product and quotient) are expanded by the real macro in both back-ends. Per definition the solver decides "
+                     "for every unit / f64 bit pattern / amount in the box: names, symbols, prefixes, scales, iteration order, constants, lookups, reference unit, constructors, the declared operator set (Kani) and the C01/C03/C04/C05 "
+                     "obligations on the corpus MIR (E2). The quantifier over programs is SAMPLED, not decided; the definitions are printed in evidence.",
+                note="Trusted: the independent reading of declarations in engine/synth/gen_defs.py; Kani/CBMC; the MIR executor. Definitions outside the corpus are outside the claim.", ref="7 C11"),
     "C13": dict(engine="mirsmt+kani", technique="MIR symbolic execution + z3 QF_NRA (three symbolic amounts) and QF_UF; Kani/CBMC for component storage",
                 text="Bounded model checking. E1: Rate::new / from_qty_vals / reciprocal store and swap the four components bit-identically for every f64 pattern and unit pair of four type combinations. "
                      "E2: for the listed (term, per) type pairs and EVERY unit triple the solver shows for all amounts in the box that rate*q, q*rate carry the term unit and q/rate the per unit with amounts within "
